@@ -8,7 +8,7 @@ import OG.C14.Index
 namespace OG.C14.IxFacts
 open OG.Gen.C14 OG.C14
 
-theorem src_ExpiredIndexes_expected : src_ExpiredIndexes = "{ e.mu.RLock() defer e.mu.RUnlock() var res []*meta2.IndexIdentifier for db := range e.DBPartitions { for _, pti := range e.DBPartitions[db] { pti.mu.RLock() for idxId := range e.DBPartitions[db][pti.id].indexBuilder { if e.DBPartitions[db][pti.id].indexBuilder[idxId].Expired() { res = append(res, e.DBPartitions[db][pti.id].indexBuilder[idxId].Ident()) } } for idxId, info := range *nilIndexMap { if e.containIdxid(res, idxId) { continue } if e.nilShardIsExpired(info.DurationInfo.Duration, info.Ident.EndTime) { index := meta2.IndexDescriptor{ IndexID: info.Ident.IndexID, IndexGroupID: info.Ident.IndexGroupID, TimeRange: meta2.TimeRangeInfo{ StartTime: info.Ident.StartTime, EndTime: info.Ident.EndTime, }, } res = append(res, &meta2.IndexIdentifier{ OwnerDb: info.Ident.OwnerDb, OwnerPt: info.Ident.OwnerPt, Policy: info.Ident.Policy, Index: &index, }) } } pti.mu.RUnlock() } } return res }" := by rfl
+theorem src_ExpiredIndexes_expected : src_ExpiredIndexes = "{ e.mu.RLock() defer e.mu.RUnlock() var res []*meta2.IndexIdentifier for db := range e.DBPartitions { for _, pti := range e.DBPartitions[db] { pti.mu.RLock() for idxId := range e.DBPartitions[db][pti.id].indexBuilder { iBuilder := e.DBPartitions[db][pti.id].indexBuilder[idxId] if iBuilder.Expired() && !pti.indexHeldByLiveShardNoLock(iBuilder) { res = append(res, iBuilder.Ident()) } } for idxId, info := range *nilIndexMap { if e.containIdxid(res, idxId) { continue } if e.nilShardIsExpired(info.DurationInfo.Duration, info.Ident.EndTime) { index := meta2.IndexDescriptor{ IndexID: info.Ident.IndexID, IndexGroupID: info.Ident.IndexGroupID, TimeRange: meta2.TimeRangeInfo{ StartTime: info.Ident.StartTime, EndTime: info.Ident.EndTime, }, } res = append(res, &meta2.IndexIdentifier{ OwnerDb: info.Ident.OwnerDb, OwnerPt: info.Ident.OwnerPt, Policy: info.Ident.Policy, Index: &index, }) } } pti.mu.RUnlock() } } return res }" := by rfl
 
 theorem src_ExpiredCacheIndexes_expected : src_ExpiredCacheIndexes = "{ e.mu.RLock() defer e.mu.RUnlock() var res []*meta2.IndexIdentifier for db := range e.DBPartitions { for _, pti := range e.DBPartitions[db] { pti.mu.RLock() for idxId := range e.DBPartitions[db][pti.id].indexBuilder { if e.DBPartitions[db][pti.id].indexBuilder[idxId].ExpiredCache() { res = append(res, e.DBPartitions[db][pti.id].indexBuilder[idxId].Ident()) } } pti.mu.RUnlock() } } return res }" := by rfl
 
@@ -39,6 +39,22 @@ theorem indexDurationInfos_assign_expected : indexDurationInfos_assign = ["durat
 theorem newIndex_options_expected : newIndex_options = ["CacheDuration(timeRangeInfo.OwnerIndex.TimeRange.EndTime.Sub(timeRangeInfo.OwnerIndex.TimeRange.StartTime))", "Duration(timeRangeInfo.ShardDuration.DurationInfo.Duration)", "EndTime(timeRangeInfo.OwnerIndex.TimeRange.EndTime)", "StartTime(timeRangeInfo.OwnerIndex.TimeRange.StartTime)"] := by rfl
 
 theorem newIndexBuilder_fields_expected : newIndexBuilder_fields = ["duration: opt.duration", "cacheDuration: opt.ident.Index.TimeRange.EndTime.Sub(opt.ident.Index.TimeRange.StartTime)", "startTime: opt.startTime", "endTime: opt.endTime"] := by rfl
+
+theorem src_indexHeldByLiveShard_expected : src_indexHeldByLiveShard = "{ for _, sh := range pti.shards { if sh.GetIndexBuilder() == iBuilder && !sh.IsExpired() { return true } } return false }" := by rfl
+
+theorem src_normalisedIndexDuration_expected : src_normalisedIndexDuration = "{ if igd < sgd { return sgd } if igd%sgd == 0 { return igd } mul := igd / sgd return (mul + 1) * sgd }" := by rfl
+
+theorem src_ixContains_expected : src_ixContains = "{ return !t.Before(igi.StartTime) && t.Before(igi.EndTime) }" := by rfl
+
+theorem src_ixLess_expected : src_ixLess = "{ iEnd := igs[i].EndTime jEnd := igs[j].EndTime if iEnd.Equal(jEnd) { return igs[i].StartTime.Before(igs[j].StartTime) } return iEnd.Before(jEnd) }" := by rfl
+
+theorem src_newShardGroup_expected : src_newShardGroup = "{ startTime := timestamp.Truncate(rpi.ShardGroupDuration) data.MaxShardGroupID++ sgi := ShardGroupInfo{ ID: data.MaxShardGroupID, StartTime: startTime.UTC(), EndTime: startTime.Add(rpi.ShardGroupDuration).UTC(), EngineType: engineType, Version: version, } if sgi.EndTime.After(time.Unix(0, models.MaxNanoTime)) { sgi.EndTime = time.Unix(0, models.MaxNanoTime+1) } return &sgi }" := by rfl
+
+theorem src_createIndexGroupIfNeeded_expected : src_createIndexGroupIfNeeded = "{ if len(rpi.IndexGroups) == 0 { return data.CreateIndexGroup(rpi, timestamp, engineType, ptNum) } var igIdx int for igIdx = len(rpi.IndexGroups) - 1; igIdx >= 0; igIdx-- { if rpi.IndexGroups[igIdx].EngineType == engineType && rpi.IndexGroups[igIdx].Contains(timestamp) { break } } if igIdx >= 0 && len(rpi.IndexGroups[igIdx].Indexes) >= int(ptNum) { return &rpi.IndexGroups[igIdx] } return data.CreateIndexGroup(rpi, timestamp, engineType, ptNum) }" := by rfl
+
+theorem src_CreateIndexGroup_expected : src_CreateIndexGroup = "{ data.MaxIndexGroupID++ igi := IndexGroupInfo{} igi.ID = data.MaxIndexGroupID igi.StartTime = timestamp.Truncate(rpi.IndexGroupDuration).UTC() igi.EndTime = igi.StartTime.Add(rpi.IndexGroupDuration).UTC() if igi.EndTime.After(time.Unix(0, models.MaxNanoTime)) { igi.EndTime = time.Unix(0, models.MaxNanoTime+1) } igi.EngineType = engineType igi.Indexes = make([]IndexInfo, ptNum) for i := range igi.Indexes { data.MaxIndexID++ igi.Indexes[i] = IndexInfo{ID: data.MaxIndexID, Owners: []uint32{uint32(i)}} } rpi.IndexGroups = append(rpi.IndexGroups, igi) sort.Sort(IndexGroupInfos(rpi.IndexGroups)) return &igi }" := by rfl
+
+theorem src_ShardGroupByTimestamp_expected : src_ShardGroupByTimestamp = "{ for i := len(rpi.ShardGroups) - 1; i >= 0; i-- { sgi := &rpi.ShardGroups[i] if sgi.EngineType == engineType && sgi.Contains(timestamp) && !sgi.Deleted() && (!sgi.Truncated() || timestamp.Before(sgi.TruncatedAt)) { return &rpi.ShardGroups[i] } } return nil }" := by rfl
 
 /-- `SetDuration` as the model was written against it: the duration is overwritten, whatever it
 is (0 = unlimited included); nothing else of the builder changes. -/
